@@ -579,7 +579,7 @@ _SEQ = [0]
 _MODS = [set()]
 
 
-async def run_script(src, app=False, timeout=10.0):
+async def run_script(src, app=False, timeout=10.0, keep=None):
     """Execute src in a fresh global context -> (globals, exception, ctx name, stdout text, new sys.modules keys)."""
     from custom_components.pyscript.eval import AstEval
     from custom_components.pyscript.function import Function
@@ -596,6 +596,8 @@ async def run_script(src, app=False, timeout=10.0):
     gsym = global_ctx.global_sym_table
     ast_ctx = AstEval(name, global_ctx=global_ctx)
     Function.install_ast_funcs(ast_ctx)
+    if keep is not None:
+        keep.append(global_ctx)
     exc = None
     if len(_MODS[0]) != len(sys.modules):
         _MODS[0] = set(sys.modules)
@@ -935,6 +937,70 @@ async def run_builtin_case(case):
             "classes": ["builtin:" + name, "builtin-ctx:" + ctx], "detail": {"script": src, "exception": repr(e)[:300]}}
 
 
+TRIGEXPR_PRELUDE = "zz_seen = []\ndef zz_probe(v):\n    zz_seen.append(v)\n    return True\n"
+TRIGEXPR_CONTEXTS = {
+    # the name is evaluated inside the expression string of a trigger / guard / filter (in the expression's own evaluation
+    # context, and from a script function the expression calls)
+    "event_filter": "@event_trigger('zz_ev', \"zz_probe({N})\")\ndef zz_f(**kw):\n    zz_seen.append('ran')\n",
+    "state_trigger_expr": "@state_trigger(\"pyscript.zzv == '1' and zz_probe({N})\")\ndef zz_f(**kw):\n    zz_seen.append('ran')\n",
+    "state_active_expr": "@event_trigger('zz_ev')\n@state_active(\"zz_probe({N})\")\ndef zz_f(**kw):\n    zz_seen.append('ran')\n",
+    "event_filter_eval": "@event_trigger('zz_ev', \"zz_probe(eval('{N}'))\")\ndef zz_f(**kw):\n    zz_seen.append('ran')\n",
+}
+
+
+async def exec_trigexpr(case):
+    from vlib import l3
+
+    name, ctx = case["name"], case["ctx"]
+    src = TRIGEXPR_PRELUDE + TRIGEXPR_CONTEXTS[ctx].format(N=name)
+    buf = io.StringIO()
+    old_stdout = sys.stdout
+    try:
+        async with l3.Integ({"zz.py": src}, legacy=case["legacy"], initial_states={"pyscript.zzv": ("0", {})}) as it:
+            from custom_components.pyscript.global_ctx import GlobalContextMgr
+
+            sys.stdout = buf
+            it.fire("zz_ev", {"k": 1})
+            it.set_state("pyscript.zzv", "1")
+            await it.settle(2)
+            gctx = GlobalContextMgr.get("file.zz")
+            seen = list(unwrap(gctx.global_sym_table.get("zz_seen")) or []) if gctx else None
+            sys.stdout = old_stdout
+            await it.unload()
+    finally:
+        sys.stdout = old_stdout
+    return seen, buf.getvalue(), src
+
+
+def run_trigexpr_case(case):
+    """Reachability of a builtin as a plain name inside trigger / guard / filter expression strings: the whole integration
+    with a real script file, both subsystems."""
+    from vlib import l3
+
+    name, ctx = case["name"], case["ctx"]
+    real = getattr(builtins, name, None)
+    forbidden = name in BUILTIN_FORBIDDEN or name in BUILTIN_EXTRA_FORBIDDEN
+    seen, out, src = l3.run_case(exec_trigexpr, case)
+    descr = []
+    for v in seen or []:
+        if real is not None and v is real:
+            descr.append("real-builtin:" + name)
+        elif v == "ran":
+            descr.append("ran")
+        else:
+            descr.append("other")
+    observed = {"loaded": seen is not None, "seen": descr, "stdout": out}
+    if forbidden:
+        expected = {"loaded": True, "seen": [], "stdout": ""}
+    elif name == "print":
+        # the logger-backed print or no print at all, but never the real one
+        expected = {"loaded": True, "seen": [d for d in descr if d != "real-builtin:print"], "stdout": ""}
+    else:
+        expected = {"loaded": True, "seen": ["real-builtin:" + name, "ran"], "stdout": ""}
+    return {"expected": expected, "observed": observed, "nontrivial": forbidden or name == "print",
+            "classes": ["builtin:" + name, "builtin-ctx:" + ctx, "legacy" if case["legacy"] else "new"], "detail": {"script": src}}
+
+
 class _Collector(logging.Handler):
     def __init__(self):
         super().__init__(level=logging.DEBUG)
@@ -1000,7 +1066,8 @@ def cfg_is_shadow(case):
     return case.get("cfg") == "shadow"
 
 
-RUNNERS = {"import": run_import_case, "seq": run_import_case, "rel": run_rel_case, "builtin": run_builtin_case, "log": run_log_case}
+RUNNERS = {"import": run_import_case, "seq": run_import_case, "rel": run_rel_case, "builtin": run_builtin_case, "log": run_log_case,
+           "trigexpr": None}
 
 
 def env_key(case):
@@ -1139,6 +1206,11 @@ class C17(ModelCheck):
                     if ctx == "global_decl" and name not in BUILTIN_FORBIDDEN + BUILTIN_EXTRA_FORBIDDEN:
                         continue  # a declared global never falls back to builtins in pyscript: not part of this property
                     cases.append({"kind": "builtin", "allow_all": allow_all, "cfg": "plain", "name": name, "ctx": ctx})
+        # (4b) builtins inside trigger / guard / filter expression strings
+        for name in BUILTIN_FORBIDDEN + BUILTIN_EXTRA_FORBIDDEN + ["print"] + BUILTIN_CONTROL:
+            for ctx in TRIGEXPR_CONTEXTS:
+                for legacy in (False, True):
+                    cases.append({"kind": "trigexpr", "allow_all": False, "cfg": "plain", "name": name, "ctx": ctx, "legacy": legacy})
         # (5) print / log
         for func in LOG_FUNCS:
             for ctx in LOG_CONTEXTS:
@@ -1166,6 +1238,9 @@ class C17(ModelCheck):
     def run(self, case):
         case = json.loads(json.dumps(case))
         try:
+            if case["kind"] == "trigexpr":
+                # the whole integration on its own (virtual-clock) loop; the bare-interpreter environment is not involved
+                return run_trigexpr_case(case)
             ENV.ensure(*env_key(case))
             return ENV.run(RUNNERS[case["kind"]](case))
         finally:
@@ -1176,10 +1251,15 @@ class C17(ModelCheck):
         res = core.ShardResult()
         self._in_shard = True
         try:
-            if shard_i == 0:
-                for c in self.fixed_regress():
-                    self.check_case(res, c, "regress")
-            for idx, c in enumerate(self.iter_cases(tier)):
+            all_cases = list(self.iter_cases(tier))
+            # the whole-integration cases run first, on loops of their own, before the bare-interpreter environment exists
+            all_cases.sort(key=lambda c: c["kind"] != "trigexpr")
+            regress_done = False
+            for idx, c in enumerate(all_cases):
+                if shard_i == 0 and not regress_done and c["kind"] != "trigexpr":
+                    regress_done = True
+                    for rc in self.fixed_regress():
+                        self.check_case(res, rc, "regress")
                 if idx % shard_n != shard_i:
                     continue
                 if res.counters.get("mismatch_total", 0) >= 100:
@@ -1223,6 +1303,8 @@ class C17(ModelCheck):
             return f"rel|{case['form']}|allow_all={bool(case.get('allow_all'))}|{case.get('cfg')}{'+app' if case.get('app') else ''}"
         if k == "builtin":
             return f"builtin|{case['name']}|{case['ctx']}|obs={obs.get('exc')}"
+        if k == "trigexpr":
+            return f"trigexpr|{case['name']}|{case['ctx']}|{'legacy' if case['legacy'] else 'new'}"
         return f"log|{case['func']}|{case['ctx']}"
 
     def attribute(self, case, r):
